@@ -9,6 +9,7 @@
 From Coq Require Import Reals List Lra.
 From Coquelicot Require Import Coquelicot.
 From Yad Require Import Conv ConvTheorems.
+From Yad Require Import ConvGen.
 Open Scope R_scope.
 
 Section E.
@@ -58,6 +59,52 @@ Section E.
       + apply (is_RInt_plus (V := R_NormedModule)); apply (is_RInt_scal (V := R_NormedModule)); assumption.
   Qed.
 
+  (* pointwise: the integrand of the convolution with g, for a g with sup norm E and Lipschitz constant Le on [x, 1] *)
+  Lemma integrand_bound g x E Le z : 0 < x <= 1 -> 0 <= Le -> x <= z <= 1 ->
+    (forall u, x <= u <= 1 -> Rabs (g u) <= E) ->
+    (forall u v, x <= u <= 1 -> x <= v <= 1 -> Rabs (g u - g v) <= Le * Rabs (u - v)) ->
+    Rabs (integrand k g x z) <= E * (Rabs (r_reg k z) / z) + (Le * x + E) * (Rabs (r_sing k z) * ((1 - z) / (z * z))).
+  Proof.
+    intros Hx HLe Hz Hg HL. unfold integrand.
+    assert (E0 : 0 <= E) by (eapply Rle_trans; [apply Rabs_pos | apply (Hg x); lra]).
+    assert (Hzi : 0 < / z) by (apply Rinv_0_lt_compat; lra).
+    assert (Hu : x <= x / z <= 1).
+    { split.
+      - apply Rmult_le_reg_r with z; [lra|]. unfold Rdiv. rewrite Rmult_assoc, Rinv_l by lra.
+        assert (x * z <= x * 1) by (apply Rmult_le_compat_l; lra). lra.
+      - apply Rmult_le_reg_r with z; [lra|]. unfold Rdiv. rewrite Rmult_assoc, Rinv_l by lra. lra. }
+    assert (B1 : Rabs (r_reg k z * (g (x / z) / z)) <= E * (Rabs (r_reg k z) / z)).
+    { replace (r_reg k z * (g (x / z) / z)) with (r_reg k z / z * g (x / z)) by (unfold Rdiv; ring).
+      rewrite Rabs_mult. unfold Rdiv at 1. rewrite Rabs_mult, (Rabs_right (/ z)) by lra.
+      assert (0 <= Rabs (r_reg k z) * / z) by (apply Rmult_le_pos; [apply Rabs_pos | lra]).
+      unfold Rdiv. rewrite (Rmult_comm E). apply Rmult_le_compat_l; [assumption | apply Hg, Hu]. }
+    assert (B2 : Rabs (g (x / z) / z - g x) <= (Le * x + E) * ((1 - z) / (z * z))).
+    { replace (g (x / z) / z - g x) with ((g (x / z) - g x) * / z + g x * (/ z - 1)) by (unfold Rdiv; ring).
+      eapply Rle_trans; [apply Rabs_triang|]. rewrite !Rabs_mult.
+      rewrite (Rabs_right (/ z)) by lra.
+      assert (Hz1 : 1 <= / z). { rewrite <- Rinv_1. apply Rinv_le_contravar; lra. }
+      rewrite (Rabs_right (/ z - 1)) by lra.
+      assert (D1 : Rabs (g (x / z) - g x) <= Le * (x * (/ z - 1))).
+      { eapply Rle_trans; [apply HL; [exact Hu | lra]|]. apply Rmult_le_compat_l; [exact HLe|].
+        replace (x / z - x) with (x * (/ z - 1)) by (unfold Rdiv; ring). rewrite Rabs_right; [lra|].
+        apply Rle_ge, Rmult_le_pos; lra. }
+      assert (D2 : Rabs (g x) <= E) by (apply Hg; lra).
+      assert (Q : / z - 1 = (1 - z) * / z) by (field; lra).
+      assert (Q2 : (1 - z) / (z * z) = (1 - z) * / z * / z) by (field; lra).
+      rewrite Q2. rewrite Q in D1 |- *.
+      assert (P0 : 0 <= (1 - z) * / z) by (apply Rmult_le_pos; lra).
+      assert (T1 : Rabs (g (x / z) - g x) * / z <= Le * x * ((1 - z) * / z * / z)).
+      { apply Rle_trans with (Le * (x * ((1 - z) * / z)) * / z); [apply Rmult_le_compat_r; lra | lra]. }
+      assert (T2 : Rabs (g x) * ((1 - z) * / z) <= E * ((1 - z) * / z * / z)).
+      { apply Rle_trans with (E * ((1 - z) * / z)); [apply Rmult_le_compat_r; assumption|].
+        apply Rmult_le_compat_l; [exact E0|]. rewrite <- (Rmult_1_r ((1 - z) * / z)) at 1. apply Rmult_le_compat_l; [exact P0 | exact Hz1]. }
+      lra. }
+    eapply Rle_trans; [apply Rabs_triang|]. rewrite (Rabs_mult (r_sing k z)).
+    assert (Rabs (r_sing k z) * Rabs (g (x / z) / z - g x) <= (Le * x + E) * (Rabs (r_sing k z) * ((1 - z) / (z * z)))).
+    { rewrite (Rmult_comm (Le * x + E)), Rmult_assoc. apply Rmult_le_compat_l; [apply Rabs_pos|]. rewrite Rmult_comm. exact B2. }
+    lra.
+  Qed.
+
   (* any kernel triple: the sup norm E and the Lipschitz constant Le of g on [x, 1] *)
   Theorem conv_bound_full g x E Le W Ws : 0 < x <= 1 -> 0 <= Le ->
     (forall u, x <= u <= 1 -> Rabs (g u) <= E) ->
@@ -67,50 +114,13 @@ Section E.
     Rabs (conv_spec k g x) <= (W + Rabs (r_loc k x)) * E + Ws * (Le * x + E).
   Proof.
     intros Hx HLe Hg HL [I HI] HW HWs. unfold conv_spec. rewrite (is_RInt_unique _ _ _ _ HI).
-    assert (E0 : 0 <= E) by (eapply Rle_trans; [apply Rabs_pos | apply (Hg x); lra]).
     assert (HIb : Rabs I <= W * E + Ws * (Le * x + E)).
     { change (norm (V := R_NormedModule) I <= W * E + Ws * (Le * x + E)).
       replace (W * E + Ws * (Le * x + E)) with (plus (scal (V := R_NormedModule) E W) (scal (V := R_NormedModule) (Le * x + E) Ws))
         by (unfold plus, scal; cbn; unfold mult; cbn; lra).
       apply (norm_RInt_le (V := R_NormedModule) (integrand k g x)
                (fun z => plus (scal E (Rabs (r_reg k z) / z)) (scal (Le * x + E) (Rabs (r_sing k z) * ((1 - z) / (z * z))))) x 1); [lra| |exact HI|].
-      - intros z Hz. unfold integrand. unfold norm, plus, scal; cbn. unfold abs, mult; cbn.
-        assert (Hzi : 0 < / z) by (apply Rinv_0_lt_compat; lra).
-        assert (Hu : x <= x / z <= 1).
-        { split.
-          - apply Rmult_le_reg_r with z; [lra|]. unfold Rdiv. rewrite Rmult_assoc, Rinv_l by lra.
-            assert (x * z <= x * 1) by (apply Rmult_le_compat_l; lra). lra.
-          - apply Rmult_le_reg_r with z; [lra|]. unfold Rdiv. rewrite Rmult_assoc, Rinv_l by lra. lra. }
-        assert (B1 : Rabs (r_reg k z * (g (x / z) / z)) <= E * (Rabs (r_reg k z) / z)).
-        { replace (r_reg k z * (g (x / z) / z)) with (r_reg k z / z * g (x / z)) by (unfold Rdiv; ring).
-          rewrite Rabs_mult. unfold Rdiv at 1. rewrite Rabs_mult, (Rabs_right (/ z)) by lra.
-          assert (0 <= Rabs (r_reg k z) * / z) by (apply Rmult_le_pos; [apply Rabs_pos | lra]).
-          unfold Rdiv. rewrite (Rmult_comm E). apply Rmult_le_compat_l; [assumption | apply Hg, Hu]. }
-        assert (B2 : Rabs (g (x / z) / z - g x) <= (Le * x + E) * ((1 - z) / (z * z))).
-        { replace (g (x / z) / z - g x) with ((g (x / z) - g x) * / z + g x * (/ z - 1)) by (unfold Rdiv; ring).
-          eapply Rle_trans; [apply Rabs_triang|]. rewrite !Rabs_mult.
-          rewrite (Rabs_right (/ z)) by lra.
-          assert (Hz1 : 1 <= / z). { rewrite <- Rinv_1. apply Rinv_le_contravar; lra. }
-          rewrite (Rabs_right (/ z - 1)) by lra.
-          assert (D1 : Rabs (g (x / z) - g x) <= Le * (x * (/ z - 1))).
-          { eapply Rle_trans; [apply HL; [exact Hu | lra]|]. apply Rmult_le_compat_l; [exact HLe|].
-            replace (x / z - x) with (x * (/ z - 1)) by (unfold Rdiv; ring). rewrite Rabs_right; [lra|].
-            apply Rle_ge, Rmult_le_pos; lra. }
-          assert (D2 : Rabs (g x) <= E) by (apply Hg; lra).
-          assert (Q : / z - 1 = (1 - z) * / z) by (field; lra).
-          assert (Q2 : (1 - z) / (z * z) = (1 - z) * / z * / z) by (field; lra).
-          rewrite Q2. rewrite Q in D1 |- *.
-          assert (P0 : 0 <= (1 - z) * / z) by (apply Rmult_le_pos; lra).
-          assert (T1 : Rabs (g (x / z) - g x) * / z <= Le * x * ((1 - z) * / z * / z)).
-          { apply Rle_trans with (Le * (x * ((1 - z) * / z)) * / z); [apply Rmult_le_compat_r; lra | lra]. }
-          assert (T2 : Rabs (g x) * ((1 - z) * / z) <= E * ((1 - z) * / z * / z)).
-          { apply Rle_trans with (E * ((1 - z) * / z)); [apply Rmult_le_compat_r; assumption|].
-            apply Rmult_le_compat_l; [exact E0|]. rewrite <- (Rmult_1_r ((1 - z) * / z)) at 1. apply Rmult_le_compat_l; [exact P0 | exact Hz1]. }
-          lra. }
-        eapply Rle_trans; [apply Rabs_triang|]. rewrite (Rabs_mult (r_sing k z)).
-        assert (Rabs (r_sing k z) * Rabs (g (x / z) / z - g x) <= (Le * x + E) * (Rabs (r_sing k z) * ((1 - z) / (z * z)))).
-        { rewrite (Rmult_comm (Le * x + E)), Rmult_assoc. apply Rmult_le_compat_l; [apply Rabs_pos|]. rewrite Rmult_comm. exact B2. }
-        lra.
+      - intros z Hz. apply (integrand_bound g x E Le z); assumption.
       - apply (is_RInt_plus (V := R_NormedModule)); apply (is_RInt_scal (V := R_NormedModule)); assumption. }
     assert (Hgx : Rabs (g x) <= E) by (apply Hg; lra).
     eapply Rle_trans; [apply Rabs_triang|]. rewrite Rabs_mult.
@@ -135,5 +145,52 @@ Section E.
       apply (is_RInt_ext (fun z => plus (scal 1 (integrand k If x z)) (scal (-1) (integrand k f x z)))).
       + intros z _. unfold integrand, plus, scal; cbn. unfold mult; cbn. unfold Rdiv. rring.
       + apply (is_RInt_plus (V := R_NormedModule)); apply (is_RInt_scal (V := R_NormedModule)); assumption.
+  Qed.
+
+  (* the same for the improper integral (kernels with ln^k(1-z), unbounded at z = 1: ConvGen.v) *)
+  Theorem conv_bound_gen g x E Le W Ws v : 0 < x < 1 -> 0 <= Le ->
+    (forall u, x <= u <= 1 -> Rabs (g u) <= E) ->
+    (forall u w, x <= u <= 1 -> x <= w <= 1 -> Rabs (g u - g w) <= Le * Rabs (u - w)) ->
+    is_conv k g x v ->
+    is_RInt_gen (fun z => Rabs (r_reg k z) / z) (at_point x) (at_left 1) W ->
+    is_RInt_gen (fun z => Rabs (r_sing k z) * ((1 - z) / (z * z))) (at_point x) (at_left 1) Ws ->
+    Rabs v <= (W + Rabs (r_loc k x)) * E + Ws * (Le * x + E).
+  Proof.
+    intros Hx HLe Hg HL [l [Hl ->]] HW HWs.
+    assert (Hrange : filter_prod (at_point x) (at_left 1) (fun ab => fst ab = x /\ x < snd ab < 1)).
+    { apply (Filter_prod _ _ _ (fun a => a = x) (fun b => x < b < 1)); [reflexivity | | intros a b Ha Hb; cbn; split; assumption].
+      exists (mkposreal (1 - x) ltac:(lra)). intros y Hy Hy1. unfold ball in Hy; cbn in Hy; unfold AbsRing_ball, abs, minus, plus, opp in Hy; cbn in Hy.
+      apply Rabs_def2 in Hy. lra. }
+    assert (Hlb : Rabs l <= W * E + Ws * (Le * x + E)).
+    { change (norm (V := R_NormedModule) l <= W * E + Ws * (Le * x + E)).
+      replace (W * E + Ws * (Le * x + E)) with (plus (scal (V := R_NormedModule) E W) (scal (V := R_NormedModule) (Le * x + E) Ws))
+        by (unfold plus, scal; cbn; unfold mult; cbn; lra).
+      apply (RInt_gen_norm (V := R_CompleteNormedModule) (Fa := at_point x) (Fb := at_left 1) (integrand k g x)
+               (fun z => plus (scal E (Rabs (r_reg k z) / z)) (scal (Le * x + E) (Rabs (r_sing k z) * ((1 - z) / (z * z))))) l).
+      - apply (filter_imp (fun ab => fst ab = x /\ x < snd ab < 1)); [|exact Hrange]. intros [a b] [Ha Hb]; cbn in *; lra.
+      - apply (filter_imp (fun ab => fst ab = x /\ x < snd ab < 1)); [|exact Hrange]. intros [a b] [Ha Hb] z Hz; cbn [fst snd] in *.
+        apply (integrand_bound g x E Le z); try assumption; lra.
+      - exact Hl.
+      - apply (is_RInt_gen_plus (V := R_NormedModule)); apply (is_RInt_gen_scal (V := R_NormedModule)); assumption. }
+    assert (Hgx : Rabs (g x) <= E) by (apply Hg; lra).
+    eapply Rle_trans; [apply Rabs_triang|]. rewrite Rabs_mult.
+    assert (Rabs (g x) * Rabs (r_loc k x) <= E * Rabs (r_loc k x)) by (apply Rmult_le_compat_r; [apply Rabs_pos | exact Hgx]).
+    lra.
+  Qed.
+
+  Theorem prediction_error_gen f If x E Le W Ws v w : 0 < x < 1 -> 0 <= Le ->
+    (forall u, x <= u <= 1 -> Rabs (If u - f u) <= E) ->
+    (forall u t, x <= u <= 1 -> x <= t <= 1 -> Rabs ((If u - f u) - (If t - f t)) <= Le * Rabs (u - t)) ->
+    is_conv k If x v -> is_conv k f x w ->
+    is_RInt_gen (fun z => Rabs (r_reg k z) / z) (at_point x) (at_left 1) W ->
+    is_RInt_gen (fun z => Rabs (r_sing k z) * ((1 - z) / (z * z))) (at_point x) (at_left 1) Ws ->
+    Rabs (v - w) <= (W + Rabs (r_loc k x)) * E + Ws * (Le * x + E).
+  Proof.
+    intros Hx HLe HE HL Hv Hw HW HWs.
+    pose proof (conv_linear_gen k If f 1 (-1) x v w Hv Hw) as Hd.
+    replace (v - w) with (1 * v + -1 * w) by ring.
+    apply (conv_bound_gen (fun u => 1 * If u + -1 * f u) x E Le W Ws); try assumption.
+    - intros u Hu. replace (1 * If u + -1 * f u) with (If u - f u) by lra. apply HE. exact Hu.
+    - intros u t Hu Ht. replace (1 * If u + -1 * f u - (1 * If t + -1 * f t)) with ((If u - f u) - (If t - f t)) by lra. apply HL; assumption.
   Qed.
 End E.
